@@ -352,6 +352,13 @@ class Printer:
                 self.fire('cast:static-downcast-on-token')
                 return self.e(I[-1])
             return self.cast(n, implicit=False)
+        if k == 'CXXReinterpretCastExpr':
+            # reinterpret_cast<char*>(&x): the byte view of an object handed to a byte-level model function (only with the unit's leave)
+            if not self.unit.get('allow_reinterpret'):
+                self.brk('expression kind not in table: CXXReinterpretCastExpr', n)
+            q, d = self.qt(n)
+            self.fire('cast:reinterpret-byte-view')
+            return '((%s)%s)' % (self.T.c(q, d), self.e(I[-1]))
         if k == 'CXXDynamicCastExpr':
             # dynamic_cast<T*>(block): the result is the block itself or null, decided by the block's dynamic type -- a stub
             fn = self.callmap.get('dynamic_cast')
@@ -601,6 +608,11 @@ class Printer:
             if tgt == 'bool':
                 self.fire('call:conversion-to-bool')
                 return '(%s != 0)' % self.e(o)
+            ck = '%s<-%s' % (self.T.c(tgt, None), self.ctype_of(self.skip(o)))
+            if ck in self.unit.get('convmap', {}):
+                # value conversion of a library type the unit models by an (uninterpreted) function
+                self.fire('call:conversion-mapped')
+                return '%s(%s)' % (self.unit['convmap'][ck], self.e(o))
             self.brk('conversion function to ' + tgt, n)
         # call on this / another object -> C function  Class__method(&obj, args)
         cls = self.class_of(o, me)
@@ -718,6 +730,13 @@ class Printer:
         if opn == 'operator=':
             if self.is_vec_expr(I[1]):
                 return self.vec_assign(I[1], I[2])
+            try:
+                ck = '%s<-%s' % (self.ctype_of(self.skip(I[1])), self.ctype_of(self.skip(I[2])))
+            except ExtractionBreak:
+                ck = None
+            if ck and ck in self.unit.get('convmap', {}):
+                self.fire('op:converting-assign')
+                return '(%s = %s(%s))' % (self.e(I[1]), self.unit['convmap'][ck], self.e(self.skip(I[2])))
             self.fire('op:record-assign')
             return '(%s = %s)' % (self.e(I[1]), self.e(self.skip(I[2])))
         opmap = self.unit.get('opmap', {})
@@ -846,6 +865,14 @@ class Printer:
                     return '{0}'
             except ExtractionBreak:
                 pass
+        if len(I) == 1 and self.unit.get('convmap'):
+            try:
+                ck = '%s<-%s' % (self.T.c(q, d), self.ctype_of(self.skip(I[0])))
+            except ExtractionBreak:
+                ck = None
+            if ck in self.unit['convmap']:
+                self.fire('ctor:converting-mapped')
+                return '%s(%s)' % (self.unit['convmap'][ck], self.e(self.skip(I[0])))
         if len(I) == 1 and self.is_vec_expr(n) and self.is_vec_expr(I[0]):
             self.brk('by-value vector copy construction', n)
         cm = self.unit.get('ctors', {})
